@@ -27,8 +27,11 @@ from pathlib import Path
 VERIF = Path(__file__).resolve().parent.parent
 REPO = Path(os.environ.get("VERIF_REPO", "/repo"))
 KANI_SRC = VERIF / "kani"
-EVIDENCE = VERIF / "evidence"
-REPLAYS = VERIF / "replays"
+# VERIF_OUT: write evidence / replays / logs elsewhere (used when a check is run against a scratch worktree via VERIF_REPO,
+# e.g. for seeded mutations, so that the committed evidence of the real tree is not overwritten)
+_OUT = Path(os.environ["VERIF_OUT"]) if os.environ.get("VERIF_OUT") else VERIF
+EVIDENCE = _OUT / "evidence"
+REPLAYS = _OUT / "replays"
 KNOWN_FILE = VERIF / "known_findings.txt"
 GUARD = "rustls_rcgen_verif"
 
@@ -395,7 +398,7 @@ def load_known() -> list[Known]:
 
 def write_evidence(prop: str, tier: str, seed: int, results: list[Result], wall: float, extra: dict, violations: int,
                    m_results: list | None = None):
-    EVIDENCE.mkdir(exist_ok=True)
+    EVIDENCE.mkdir(parents=True, exist_ok=True)
     passed = [r for r in results if r.status == "pass"]
     distinct = len({(r.query.family, r.query.shape) for r in passed})
     samples = []
